@@ -955,3 +955,15 @@ N('n_if_let_to_match', ALL, 'if-let written as match',
         }'''))
 N('n_vec_with_capacity', ALL, 'empty vectors created with with_capacity(0)',
   (LIB, '            members: Members::new(Vec::new()),', '            members: Members::new(Vec::with_capacity(0)),'))
+
+# ---------------------------------------------------------------- later additions
+M('c01_state_transfer_skips_down', ['C01'], ['C01-R5'], 'iter_membership_state leaves out Down records (state exchange loses tombstones)',
+  (LIB, 'pub fn iter_membership_state(&self) -> impl ExactSizeIterator<Item = &Member<T>> {\n        self.members.inner.iter()',
+   'pub fn iter_membership_state(&self) -> impl Iterator<Item = &Member<T>> {\n        self.members.inner.iter().filter(|m| m.is_active())'))
+M('c01_apply_many_stops_at_self', ['C01'], ['C01-R5'], 'apply_many stops processing after an update about itself',
+  (LIB, '                self.handle_self_update(update.incarnation(), update.state(), &mut runtime)?;\n            } else if self.identity.addr() == update.id().addr() {',
+   '                self.handle_self_update(update.incarnation(), update.state(), &mut runtime)?;\n                break;\n            } else if self.identity.addr() == update.id().addr() {'))
+M('c07_reader_rejects_bare_count', ['C07'], ['C07-R5'], 'a datagram ending right after an empty member count is rejected',
+  (LIB, 'if remaining == 1 || (header.message == Message::Announce && remaining > 0) {', 'if remaining <= 2 && remaining > 0 || (header.message == Message::Announce && remaining > 0) {'))
+M('c07_custom_min_size_raised', ['C07', 'C16'], ['C07-R5'], 'one-byte custom items are rejected by the reader',
+  (LIB, 'if !data.is_empty() && data.len() < 3 {', 'if !data.is_empty() && data.len() < 4 {'))
